@@ -7,3 +7,4 @@ import Bmc.Proofs.C13
 #print axioms Bmc.Proofs.C13.retrieval_returns_by_deadline
 #print axioms Bmc.Proofs.C13.expired_context_composite
 #print axioms Bmc.Proofs.C13.timing_facts
+#print axioms Bmc.Proofs.C13.context_pass_through
